@@ -11,63 +11,15 @@ and both shapes at once (no enumeration of configurations):
   * splitting the features over several attributes is the same as listing them in one.
 Not proved: that rustc type-checks the emitted text (sampled by the probes).
 -/
-import EnumToolsModel.Lemmas.Resolve
-import EnumToolsModel.Generated.Uses
-import EnumToolsModel.Generated.Docs
-import EnumToolsModel.Generated.Catalog
+import EnumToolsModel.Lemmas.C10Aux
+import EnumToolsModel.Thm.C01
+import EnumToolsModel.Thm.C07
+import EnumToolsModel.Thm.C08
+import EnumToolsModel.Thm.C11
 namespace ET.Thm
 open ET.Generated
 
 /-! ### legality as the documentation states it -/
-
-/-- `range` needs `iter`, not in mode table_inline; iter mode `range` needs a gapless enum -/
-def LegalCfg (sh : Shape) (fl : Flags) (m : Modes) : Prop :=
-  (.range ∈ fl → .iter ∈ fl ∧ m.iter ≠ .tableInline) ∧ (.iter ∈ fl → m.iter = .range → sh.gapless = true)
-
-/-- the three abort conditions the model knows are exactly the ones in the code -/
-theorem aborts_are_the_documented_ones :
-    (aborts.map (fun a => (a.src, a.guard, a.unlessFlag))) =
-      [(.range, [], some .iter), (.range, [.iterIn [.tableInline]], none), (.iter, [.iterIn [.range], .holes], none)] := by
-  decide +kernel
-
-/-- flags only the user can set (no rule sets them) -/
-theorem user_only_flags :
-    (rules.all (fun r => !r.sets.contains .range && !r.sets.contains .iter && !r.sets.contains .fromStrFn &&
-      !r.sets.contains .fromStrTrait && !r.sets.contains .debug && !r.sets.contains .display && !r.sets.contains .intoStr)) = true := by
-  decide +kernel
-
-theorem user_only (f : Flag) (hf : f = .range ∨ f = .iter ∨ f = .fromStrFn ∨ f = .fromStrTrait ∨ f = .debug ∨ f = .display ∨ f = .intoStr) :
-    ∀ r ∈ rules, f ∉ r.sets := by
-  intro r hr
-  have := List.all_eq_true.mp user_only_flags r hr
-  simp only [Bool.and_eq_true, Bool.not_eq_true', List.contains_eq_mem, decide_eq_false_iff_not] at this
-  rcases hf with rfl | rfl | rfl | rfl | rfl | rfl | rfl <;> simp_all
-
-/-- user-only flags are the same before and after `resolve` -/
-theorem user_flag_stable (sh : Shape) (fl : Flags) (m m' : Modes) (f : Flag)
-    (hf : f = .range ∨ f = .iter ∨ f = .fromStrFn ∨ f = .fromStrTrait ∨ f = .debug ∨ f = .display ∨ f = .intoStr) :
-    (f ∈ runRules rules m' sh.gapless (autoFlags sh (runRules rules m sh.gapless fl) m) ↔ f ∈ fl) ∧
-    (f ∈ autoFlags sh (runRules rules m sh.gapless fl) m ↔ f ∈ fl) := by
-  have hne : f ≠ .tableName := by rcases hf with rfl | rfl | rfl | rfl | rfl | rfl | rfl <;> decide
-  have h1 := run_frame m sh.gapless rules fl f (user_only f hf)
-  have h2 : f ∈ autoFlags sh (runRules rules m sh.gapless fl) m ↔ f ∈ fl := by
-    constructor
-    · intro h; exact h1.mp (((autoFlags_spec sh _ m f).2 h).resolve_right hne)
-    · intro h; exact (autoFlags_spec sh _ m f).1 (h1.mpr h)
-  exact ⟨(run_frame m' sh.gapless rules _ f (user_only f hf)).trans h2, h2⟩
-
-theorem abort_mem (a : Flag × List Atom × Option Flag)
-    (ha : a ∈ [(Flag.range, ([] : List Atom), some Flag.iter), (.range, [.iterIn [.tableInline]], none), (.iter, [.iterIn [.range], .holes], none)]) :
-    ∃ r ∈ aborts, (r.src, r.guard, r.unlessFlag) = a := by
-  rw [← aborts_are_the_documented_ones] at ha
-  obtain ⟨r, hr, e⟩ := List.mem_map.mp ha
-  exact ⟨r, hr, e⟩
-
-theorem no_abort_of_find (mm : Modes) (g : Bool) (fl : Flags) (h : aborts.find? (abortFires mm g fl) = none) :
-    ∀ a ∈ aborts, abortFires mm g fl a = false := by
-  intro a ha
-  have := List.find?_eq_none.mp h a ha
-  simpa using this
 
 /-- a legal configuration never reaches an `abort!` -/
 theorem C10_legal_no_abort (sh : Shape) (fl : Flags) (m : Modes) (hl : LegalCfg sh fl m) :
@@ -118,46 +70,6 @@ theorem C10_legal_no_abort (sh : Shape) (fl : Flags) (m : Modes) (hl : LegalCfg 
     · rw [ham.2.2.2.2.2.2.2.1 hauto] at hrange; exact hl.2 (hi.mp hiter) hrange
 
 /-! ### after `resolve` -/
-
-/-- every rule that sets the flag of a feature with modes is unguarded and fires from a user-only flag
-(so "enabled" means the same before and after `auto`) -/
-theorem mode_flags_stable_table :
-    (rules.all (fun r => !r.sets.contains .asStr || (r.guard.isEmpty && (r.src == .debug || r.src == .display || r.src == .intoStr)))) = true := by
-  decide +kernel
-
-theorem asStr_stable (sh : Shape) (fl : Flags) (m m' : Modes)
-    (h : .asStr ∈ runRules rules m' sh.gapless (autoFlags sh (runRules rules m sh.gapless fl) m)) :
-    .asStr ∈ autoFlags sh (runRules rules m sh.gapless fl) m := by
-  rcases run_origin m' sh.gapless rules _ _ h with h1 | ⟨r, hr, hs, _, hsrc⟩
-  · exact h1
-  · have ht := List.all_eq_true.mp mode_flags_stable_table r hr
-    simp only [Bool.or_eq_true, Bool.not_eq_true', List.contains_eq_mem, decide_eq_false_iff_not, Bool.and_eq_true,
-      List.isEmpty_iff, beq_iff_eq] at ht
-    rcases ht with ht | ⟨hg, hsrc3⟩
-    · exact absurd hs ht
-    · have hu : r.src = .range ∨ r.src = .iter ∨ r.src = .fromStrFn ∨ r.src = .fromStrTrait ∨ r.src = .debug ∨ r.src = .display ∨ r.src = .intoStr := by
-        rcases hsrc3 with (e | e) | e
-        · exact Or.inr (Or.inr (Or.inr (Or.inr (Or.inl e))))
-        · exact Or.inr (Or.inr (Or.inr (Or.inr (Or.inr (Or.inl e)))))
-        · exact Or.inr (Or.inr (Or.inr (Or.inr (Or.inr (Or.inr e)))))
-      have hsrc0 : r.src ∈ fl := (user_flag_stable sh fl m m' r.src hu).1.mp hsrc
-      -- the rule already fired in the first pass
-      have hsat := run_sat m sh.gapless rules fl rules_ordered r hr
-      have : Flag.asStr ∈ runRules rules m sh.gapless fl :=
-        hsat (run_mono m sh.gapless rules fl _ hsrc0) (by rw [hg]; rfl) _ hs
-      exact (autoFlags_spec sh _ m _).1 this
-
-theorem uo_range : Flag.range = .range ∨ Flag.range = .iter ∨ Flag.range = .fromStrFn ∨ Flag.range = .fromStrTrait ∨ Flag.range = .debug ∨ Flag.range = .display ∨ Flag.range = .intoStr := Or.inl rfl
-theorem uo_iter : Flag.iter = .range ∨ Flag.iter = .iter ∨ Flag.iter = .fromStrFn ∨ Flag.iter = .fromStrTrait ∨ Flag.iter = .debug ∨ Flag.iter = .display ∨ Flag.iter = .intoStr := Or.inr (Or.inl rfl)
-theorem uo_fromStrFn : Flag.fromStrFn = .range ∨ Flag.fromStrFn = .iter ∨ Flag.fromStrFn = .fromStrFn ∨ Flag.fromStrFn = .fromStrTrait ∨ Flag.fromStrFn = .debug ∨ Flag.fromStrFn = .display ∨ Flag.fromStrFn = .intoStr := Or.inr (Or.inr (Or.inl rfl))
-theorem uo_fromStrTrait : Flag.fromStrTrait = .range ∨ Flag.fromStrTrait = .iter ∨ Flag.fromStrTrait = .fromStrFn ∨ Flag.fromStrTrait = .fromStrTrait ∨ Flag.fromStrTrait = .debug ∨ Flag.fromStrTrait = .display ∨ Flag.fromStrTrait = .intoStr := Or.inr (Or.inr (Or.inr (Or.inl rfl)))
-
-/-- a user-only flag that is enabled after `resolve` was enabled all along -/
-theorem user_flag_back (sh : Shape) (fl : Flags) (m m' : Modes) (f : Flag)
-    (hf : f = .range ∨ f = .iter ∨ f = .fromStrFn ∨ f = .fromStrTrait ∨ f = .debug ∨ f = .display ∨ f = .intoStr)
-    (h : f ∈ runRules rules m' sh.gapless (autoFlags sh (runRules rules m sh.gapless fl) m)) :
-    f ∈ autoFlags sh (runRules rules m sh.gapless fl) m :=
-  (user_flag_stable sh fl m m' f hf).2.mpr ((user_flag_stable sh fl m m' f hf).1.mp h)
 
 /-- after `resolve`: no enabled feature is in mode `auto`; `iter` in range mode only on gapless enums;
 `range` only together with `iter`, never with table_inline -/
@@ -211,20 +123,6 @@ theorem C10_resolved (sh : Shape) (fl : Flags) (m : Modes) (fl2 : Flags) (m2 : M
 
 /-! ### closure: everything a template references is generated -/
 
-/-- what an enabled feature brings with it before the rules run: itself, and the features without which it aborts -/
-def seedOf (f : Flag) : Flags :=
-  f :: aborts.filterMap (fun a => if a.src == f && a.guard.isEmpty && rules.all (fun r => !r.sets.contains f) then a.unlessFlag else none)
-
-/-- the consequences of one enabled feature under the rules -/
-def closureOf (m : Modes) (g : Bool) (f : Flag) : Flags := runRules rules m g (seedOf f)
-
-/-- decidable, over the regenerated tables: every item referenced by a template of `f` (mode `m`, shape `g`)
-is a consequence of `f` (and of the features `f` cannot be enabled without) -/
-def usesCovered : Bool :=
-  Flag.all.all fun f => Modes.all.all fun m => [true, false].all fun g => (uses f m g).all fun u => (closureOf m g f).contains u
-
-theorem uses_covered : usesCovered = true := by decide +kernel
-
 /-- After `resolve`, for every enabled feature, every helper item its templates reference — in the mode it
 was resolved to, on this shape — is enabled as well (with the numeric offset when the template reads it).
 For all feature subsets, all modes, both shapes. -/
@@ -271,14 +169,6 @@ theorem C10_no_table_range_when_gapless :
 
 /-! ### the documentation is accepted -/
 
-def acceptedParams (s : FeatSpec) : List String :=
-  (if s.hasVisName then ["vis", "name"] else []) ++ (match s.structKey with | some k => [k] | none => []) ++
-    (match s.modeKind with | .none => [] | _ => ["mode"])
-
-def documentedParams (d : DocFeature) : List String := d.params ++ (if d.sig.isSome then ["name", "vis"] else [])
-
-def specOf (k : String) : Option FeatSpec := catalog.find? (·.key == k)
-
 /-- every documented feature exists, with every documented parameter; `sorted` is parsed separately with `name`, `value` -/
 theorem C10_docs_features_and_params :
     (docFeatures.all (fun d =>
@@ -298,35 +188,58 @@ theorem C10_docs_modes_partial :
 /-- the documented visibility values are the accepted ones -/
 theorem C10_docs_vis : docVisValues = ["", "pub(crate)", "pub"] := by decide +kernel
 
-/-- KNOWN FINDING (negation of the full-strength statement): the documentation lists mode `"match"` for
-`iter`, the parser does not accept it -/
-theorem C10_docs_iter_match_rejected :
-    (docFeatures.any (fun d => d.key == "iter" && d.modes.contains "match")) = true ∧
-    (match specOf "iter" with | some s => s.modes.contains "match" | none => true) = false := by
-  decide +kernel
+/-! ### "each item enabled this way then satisfies its own guarantee" -/
+
+/-- The whole pipeline, for every declaration and configuration the derive accepts: the enum the derive works with is
+the enum the language defines (`d.sem`, rustc's own discriminant rule), and every function body the templates contain —
+as translated from /repo/src on this run, in the modes `resolve` ended in — computes the specification of *that* enum:
+for every value of the repr type, every variant, every string, every finite iterator history. -/
+theorem C10_enabled_items_meet_spec (t : Target) (ht : t.WF) (d : Decl) (x : Expansion) (h : expand t d = .ok x)
+    (hr : RustcAcceptsEnum x) :
+    ∃ E, d.sem = some E ∧ E.discs = x.D.vals ∧
+      (∀ n, x.D.repr.InRange n →
+        T.tryFromFn x.D t x.modes n = .ok (spec.tryFrom E n) ∧ T.tryFromTrait x.D t x.modes n = .ok (spec.tryFrom E n)) ∧
+      (∀ v ∈ E.discs,
+        T.intoFn x.D t x.modes v = .ok (spec.into E v) ∧ T.intoTrait x.D t x.modes v = .ok (spec.into E v) ∧
+        T.next x.D t x.modes v = .ok (spec.next E v) ∧ T.nextBack x.D t x.modes v = .ok (spec.nextBack E v)) ∧
+      (.asStr ∈ x.flags → ∀ v ∈ E.discs, ∃ nm, spec.asStr E v = some nm ∧ T.asStr x.D t x.modes v = .ok nm ∧
+        T.display x.D t x.modes v = .ok nm ∧ T.debug x.D t x.modes v = .ok nm ∧ T.intoStr x.D t x.modes v = .ok nm) ∧
+      (.fromStrFn ∈ x.flags → ∀ s, T.fromStrFn x.D t x.modes s = .ok (spec.fromStr E s)) ∧
+      (.fromStrTrait ∈ x.flags → ∀ s, T.fromStrTrait x.D t x.modes s = .ok (spec.fromStr E s)) ∧
+      (T.names x.D t x.modes = .ok (.cursor (spec.names E))) ∧
+      (.iter ∈ x.flags → ∀ (ops : List Op) (fin : Fin), ∃ st st', T.iter x.D t x.modes = .ok st ∧
+        T.runT x.D t x.modes st ops = .ok (st', (Cursor.run (spec.iter E) ops).2) ∧
+        T.finishT x.D t x.modes st' fin = .ok (Cursor.finish (Cursor.run (spec.iter E) ops).1 fin)) ∧
+      (.range ∈ x.flags → ∀ a ∈ E.discs, ∀ b ∈ E.discs, ∀ (ops : List Op) (fin : Fin), ∃ st st',
+        T.range x.D t x.modes a b = .ok st ∧
+        T.runT x.D t x.modes st ops = .ok (st', (Cursor.run (spec.range E a b) ops).2) ∧
+        T.finishT x.D t x.modes st' fin = .ok (Cursor.finish (Cursor.run (spec.range E a b) ops).1 fin)) := by
+  have hwf := C11_WF t ht d x h hr
+  have hsem := C11_sem t d x h
+  obtain ⟨fl, m, hres⟩ := expand_resolved t d x h
+  obtain ⟨r1, r2, r3, r4, r5⟩ := C10_resolved _ fl m x.flags x.modes hres
+  refine ⟨x.D.sem, hsem, x.D.sem_discs, ?_, ?_, ?_, ?_, ?_, C08_source x.D t x.modes, ?_, ?_⟩
+  · intro n hn; exact C01_source_tryFrom x.D t x.modes hwf n hn
+  · intro v hv
+    rw [x.D.sem_discs] at hv
+    exact ⟨(C01_source_into x.D t x.modes hwf v hv).1, (C01_source_into x.D t x.modes hwf v hv).2,
+      (C05_source x.D t x.modes hwf v hv).1, (C05_source x.D t x.modes hwf v hv).2⟩
+  · intro ha v hv
+    rw [x.D.sem_discs] at hv
+    exact C03_source x.D t x.modes hwf ht (r1 ha) v hv
+  · intro ha s; exact (C04_source x.D t x.modes hwf s).1 (r2 ha)
+  · intro ha s; exact (C04_source x.D t x.modes hwf s).2 (r3 ha)
+  · intro ha ops fin
+    exact C06_source x.D t x.modes hwf ht (r4 ha).1 (r4 ha).2 ops fin
+  · intro ha a hav b hbv ops fin
+    rw [x.D.sem_discs] at hav hbv
+    obtain ⟨hi, hni⟩ := r5 ha
+    obtain ⟨hna, hrg⟩ := r4 hi
+    have hm : x.modes.iter = .range ∨ x.modes.iter = .nextAndBack ∨ x.modes.iter = .table := by
+      cases hmi : x.modes.iter <;> simp_all
+    exact C07_source x.D t x.modes hwf ht hm hrg a b hav hbv ops fin
 
 /-! ### one attribute or several -/
-
-theorem parseItems_append (a b : List CfgItem) : ∀ (fm : FeatureMap) (errs : List Err),
-    parseItems fm errs (a ++ b) = (match parseItems fm errs a with | none => none | some (fm', errs') => parseItems fm' errs' b) := by
-  induction a with
-  | nil => intro fm errs; simp [parseItems]
-  | cons x rest ih =>
-    intro fm errs
-    cases x with
-    | path p => cases p <;> simp [parseItems, ih]
-    | other => simp [parseItems, ih]
-    | list p ps =>
-      cases p with
-      | complex => cases ps <;> simp [parseItems]
-      | simple n =>
-        cases ps with
-        | none => simp [parseItems]
-        | some l =>
-          simp only [List.cons_append, parseItems]
-          cases parseParams [] errs l with
-          | none => rfl
-          | some r => obtain ⟨pm, e⟩ := r; simp [ih]
 
 /-- splitting the features over several `#[enum_tools(..)]` attributes is equivalent to listing them in one -/
 theorem C10_split_equiv (st : AttrsOut) (a b : List CfgItem) (rest : List EAttr) :
